@@ -16,6 +16,7 @@ def run(ctx, rep):
             "C07-R4c": "try_stack/loop_stack are per function (a return in a nested function does not inline the enclosing function's finally)",
         },
     )
+    exceptions.rule_handler_stack_mutations(ctx, rep, "C07-R2c")
     exceptions.rule_finally_placement(ctx, rep, "C07-R4")
     exceptions.rule_catchable_classes(ctx, rep, "C07-R5")
     exceptions.rule_source_map_per_function(ctx, rep, "C07-R6")
